@@ -570,7 +570,35 @@ func ruleScannerOrder(p *Prog, r *Report) {
 			return rule == "R-RPM-SCAN" || rule == "R-RPM-NONDIGIT" || rule == "R-RPM-DIGITS"
 		}, map[string]int{"R-RPM-SCAN": 1, "R-RPM-NONDIGIT": 1, "R-RPM-DIGITS": 1}},
 	}
-	runImports(p, r, specs)
+	// Where R-*-SCAN does not recognise the scanner's shape at all (cursor loops moved into helper
+	// functions, for instance) nothing is known about it either way: the scanner then stays an assumption
+	// of R-PREORDER, as listed in the evidence; the shape itself is C10's / C11's subject. A recognised
+	// shape that breaks a clause (a cursor that does not start at 0, a run that is not maximal) is reported.
+	for _, sp := range specs {
+		scratch := NewReport(r.Prop, r.Tier)
+		for _, fn := range sp.fns {
+			fn(p, scratch)
+		}
+		unrecognised := false
+		for _, o := range scratch.Obls {
+			if strings.HasSuffix(o.Rule, "-SCAN") && o.Verdict != OK && strings.Contains(o.Detail, "no two-cursor scanner loop") {
+				unrecognised = true
+			}
+		}
+		if unrecognised {
+			r.Ok("R-SCANNER-SHAPE", sp.eco+": scanner shape", "-", "the two-cursor shape is not recognised (R-*-SCAN of the reference property reports it): the scanner stays an assumption of R-PREORDER")
+			continue
+		}
+		for _, o := range scratch.Obls {
+			if sp.take(o.Rule, o.Key) {
+				c := *o
+				r.Obls = append(r.Obls, &c)
+			}
+		}
+		for rule, n := range sp.floor {
+			r.Floor(rule, n)
+		}
+	}
 }
 
 func init() {
